@@ -70,6 +70,7 @@ type Case struct {
 	Seed     uint64        `json:"seed"`    // latency PRNG
 	GenSeed  uint64        `json:"genseed"` // generator seed (regenerates the case)
 	Mount    bool          `json:"mount"`    // the destination also implements registry.Mounter; MountFrom returns candidates
+	Titled   []int         `json:"titled"`   // nodes whose descriptor carries org.opencontainers.image.title inside the manifests that list them
 	CbSet    string        `json:"cbset"`    // which of PreCopy PostCopy OnCopySkipped OnMounted MountFrom are set, 5 x 0|1 ("" = all set)
 	FindSucc bool          `json:"findsucc"` // FindSuccessors set (to a function calling content.Successors) instead of nil
 	Slow     bool          `json:"slow"`     // storage latencies of 0.2-2 ms (contention on the limiter)
@@ -956,6 +957,43 @@ func implSel(res *Result) string {
 	return " sel=?"
 }
 
+// nonMT: two nodes share the destination key but not their (non-foreign) successors' keys: the graph is
+// not mt_consistent for this destination, copy_result is then not determined (same rule as ml/c01_main.ml).
+func nonMT(c *Case, g *dag.Graph) bool {
+	key := func(n *dag.Node) string {
+		if !DigestKeyed(c.Dst) {
+			return fmt.Sprint("n", n.ID)
+		}
+		k := n.Desc.Digest.String()
+		if c.Dst == "remote" {
+			k = fmt.Sprint(n.IsManifest(), k)
+		}
+		return k
+	}
+	keys := func(n *dag.Node) string {
+		m := map[string]bool{}
+		for _, s := range n.Succ {
+			if !g.Nodes[s].Foreign() {
+				m[key(g.Nodes[s])] = true
+			}
+		}
+		var ks []string
+		for k := range m {
+			ks = append(ks, k)
+		}
+		sort.Strings(ks)
+		return strings.Join(ks, ",")
+	}
+	for i, a := range g.Nodes {
+		for _, b := range g.Nodes[i+1:] {
+			if key(a) == key(b) && keys(a) != keys(b) {
+				return true
+			}
+		}
+	}
+	return false
+}
+
 // ImplObs is the implementation's projected observable, same shape as the model's line.
 func ImplObs(res *Result) string {
 	ret := "0"
@@ -973,7 +1011,7 @@ func ImplObs(res *Result) string {
 		}
 	}
 	cr := "-"
-	if res.Err == nil {
+	if res.Err == nil && !nonMT(res.Case, res.G) {
 		cr = ints(present)
 	}
 	// the in-flight maxima are compared on successful runs only: after a failure the model drops the
